@@ -10,15 +10,15 @@ import YaegiVerif.Generated.C10
   frame (`Binding`) and a call counter (so that a use that silently does nothing is visible in later results).
   `runHist F` is the interpreter as it is (facts `F`), `runSpec` what Go and the property demand.
 
-  State after the repairs of round 2 (4a41b28 F10, 2667a11 import, ba001d8): for the extracted facts EVERY
-  definition gets a live frame after EVERY history (`every_definition_alive`: the run-id part of the property at
-  full strength, F10 repaired), and every use returns what the specification returns for every history, every kind
-  of definition and every way of calling — except one situation found while the harness was extended (F10-3): a
-  function value called directly by the host after a cancelled evaluation, before any other evaluation, gets the
-  CLOSED done channel the cancelled evaluation left in the root frame, so a body that blocks on a channel is cut
-  short. `definitions_survive_partial` has that single clause in its domain; without channel operations in the
-  bodies the statement is full (`definitions_survive_without_channels`). What the statement was false for before the
-  repairs is kept as statements about `Expected.C10.oldFacts`, the record the extractor produces on the old tree.
+  State after the repairs of round 2 (4a41b28 F10, 2667a11 import, ba001d8) and the epoch repair of round 4
+  (dc95f3e, 2db9fe7): the full-strength statement holds for the extracted facts (`definitions_survive`), also for
+  histories in which the windows F10-1 was about are made visible (`definitions_survive_extended`: a host call while
+  the cancelled `Execute` has not returned, after a `stop()` that came after `Execute` had returned, after a `stop()`
+  without any `Execute`). A call of a function value takes the interpreter's CURRENT id and done channel when its
+  frame is made (the epoch of a definition of a history is never cancelled: the evaluation that made it has
+  completed), so neither the id nor the done channel of the root frame matters to a host call any more. What the
+  statement was false for is kept as statements about `Expected.C10.round2Facts` (F10-1, F10-3) and
+  `Expected.C10.oldFacts` (F10 and the import), the records the extractor produces on the trees before the repairs.
 -/
 namespace YaegiVerif.Props.C10
 open YaegiVerif YaegiVerif.RunId YaegiVerif.Proofs.C09 YaegiVerif.Proofs.C10
@@ -40,106 +40,94 @@ theorem expected_sound : Sound Expected.C10.facts := by
     exactly when `guardOk` says so — which is how `alive` is defined; otherwise the frame is dropped without
     executing anything -/
 theorem body_runs_iff_guard (F : RunIdFacts) (σ : St) (fid : Nat) (p : Prog) (rest : List Frame) (main : Bool) (ops ticks : Nat) :
-    let g : G := { stack := ⟨fid, .tick p, true⟩ :: rest, armed := false, blocked := none, ops := ops, ticks := ticks, main := main, pending := none }
+    let g : G := { stack := ⟨fid, .tick p, true, false⟩ :: rest, armed := false, blocked := none, ops := ops, ticks := ticks, main := main, pending := none }
     (stepG F σ g).g.armed = guardOk F fid σ.id ∧
     (guardOk F fid σ.id = false → (stepG F σ g).g.stack = rest ∧ (stepG F σ g).g.ops = ops ∧ (stepG F σ g).g.ticks = ticks) := by
   cases h : guardOk F fid σ.id <;> simp [stepG, advance, h]
 
 /-- the id the frame of a call of a function value gets in the history model is the id the machine gives it: the
-    root frame's, read when the call is made -/
-theorem function_value_called_under_root_id (h : HSt) (d : Def) (s : Site) (c : Nat) (hs : s ≠ .call)
-    (hb : d.binding = .fixed s c ∨ d.binding = .root) : useFrameId Generated.C10.facts h d = h.rootId := by
+    interpreter's current one, read when the call is made -/
+theorem function_value_called_under_current_id (h : HSt) (d : Def) (s : Site) (c : Nat) (hs : s.kind ≠ .call) (host : Bool)
+    (hb : d.binding = .fixed s c ∨ d.binding = .root) : useFrameId Generated.C10.facts h d host = h.id := by
   rw [runidfacts_tie]
   rcases hb with hb | hb
-  · cases s <;> first | exact absurd rfl hs | simp [useFrameId, hb, newId, RunIdFacts.site, Expected.C10.facts, Expected.C09.facts]
+  · obtain ⟨k, e, l⟩ := s
+    cases k <;> first | exact absurd rfl hs | simp [useFrameId, hb, newId, RunIdFacts.site, Expected.C10.facts, Expected.C09.facts]
   · simp [useFrameId, hb, newId, Expected.C10.facts, Expected.C09.facts]
 
 /-! ### the invariant of histories -/
 
-/-- **Between two events the root frame carries the interpreter's id**, whatever the history was: `Execute`
-    refreshes it when it starts and again when it returns, a cancelled `Execute` included. -/
-theorem root_in_step_between_events (evs : List Ev) :
-    (runHist Generated.C10.facts HSt.init evs).rootId = (runHist Generated.C10.facts HSt.init evs).id := by
+/-- **`interp.done` is an open channel between two events**, whatever the history was: `stop()` replaces the channel it
+    closes, nothing else touches it (2db9fe7) — and it is the channel every call of a function value races -/
+theorem done_open_between_events (evs : List Ev) : (runHist Generated.C10.facts HSt.init evs).idone = false := by
   rw [runidfacts_tie]
-  exact (synced_run evs HSt.init ⟨rfl, rfl⟩).1
+  exact open_run evs HSt.init rfl
 
 /-- **Every definition is alive after every history**: a use — an `Eval` of a call or a direct call by the host —
     of ANY definition made so far (named function, method, closure, method value bound at top level or inside a
     function, function value held by the host, function of a package imported later) gets a frame that carries
-    the interpreter's current id. -/
+    the interpreter's current id; for the host call this does not depend on the id of the root frame. -/
 theorem every_definition_alive (evs : List Ev) (d : Def) (hd : d ∈ (runHist Generated.C10.facts HSt.init evs).defs) :
-    alive Generated.C10.facts (runHist Generated.C10.facts HSt.init evs) d = true ∧
-    alive Generated.C10.facts ((runHist Generated.C10.facts HSt.init evs).refresh Generated.C10.facts) d = true := by
+    alive Generated.C10.facts (runHist Generated.C10.facts HSt.init evs) d true = true ∧
+    alive Generated.C10.facts ((runHist Generated.C10.facts HSt.init evs).enter Generated.C10.facts false) d false = true := by
   revert hd
   rw [runidfacts_tie]
   intro hd
-  have hs := (synced_run evs HSt.init ⟨rfl, rfl⟩).1
   have hf := fvBound_run Expected.C10.facts evs HSt.init (fun d hd => by cases hd)
-  refine ⟨synced_alive _ d hs (hf d hd), ?_⟩
-  exact synced_alive _ d (by simp [HSt.refresh, fact_ref]) (hf d hd)
+  exact ⟨host_alive _ d (hf d hd), eval_alive _ d (by simp [HSt.enter, HSt.refresh, fact_ref]) (hf d hd)⟩
 
-/-! ### the property -/
+/-! ### the property, at full strength -/
 
 /-- the full-strength statement: every history, every definition kind, every way of calling -/
 def C10_full_statement (F : RunIdFacts) : Prop :=
   ∀ evs : List Ev, (runHist F HSt.init evs).results = (runSpec HSt.init evs).results
 
-/-- the domain of the partial theorem (decidable; `okEv` looks at the state each event meets): the host does not call
-    a function value whose body blocks on a channel while the root frame holds a closed done channel — by
-    `root_done_after_event`: after a cancelled evaluation and before the next evaluation (F10-3) -/
-def Dom (evs : List Ev) : Bool := DomFrom Generated.C10.facts HSt.init evs
-
-/-- when the root frame holds a closed done channel: exactly after a cancelled evaluation whose `Execute` had started
-    when `stop()` ran, until the next evaluation (a direct call by the host changes nothing) -/
-theorem root_done_after_event (evs : List Ev) (ev : Ev) :
-    (runHist Generated.C10.facts HSt.init (evs ++ [ev])).rdone =
-      match ev with
-      | .define _ _ _ _ => false
-      | .use _ .host _ => (runHist Generated.C10.facts HSt.init evs).rdone
-      | .use _ _ _ => false
-      | .cancelled .expiredBefore => false
-      | .cancelled _ => true := by
-  have happ : runHist Generated.C10.facts HSt.init (evs ++ [ev]) =
-      stepH Generated.C10.facts (runHist Generated.C10.facts HSt.init evs) ev := by
-    simp [runHist, List.foldl_append]
-  rw [happ, runidfacts_tie]
-  exact rdone_after _ ev (synced_run evs HSt.init ⟨rfl, rfl⟩)
-
-/-- **Definitions survive** (partial: `Dom`, the F10-3 clause only). For every history — definitions of every kind
-    (named functions, methods, closures stored in variables, method values bound at top level or inside functions,
-    function values handed to the host, functions of packages imported after cancellations), with or without
-    channel operations in their bodies, made at any point; uses through `Eval`, `EvalWithContext` and direct calls
-    by the host; cancelled evaluations of every kind anywhere and in any number — in which the host does not call a
-    channel-using function value right after a cancelled evaluation: every use returns exactly what it returns
-    when the cancelled evaluations are left out (`runSpec` ignores them), state carried between calls included. -/
-theorem definitions_survive_partial (evs : List Ev) (hd : Dom evs = true) :
-    (runHist Generated.C10.facts HSt.init evs).results = (runSpec HSt.init evs).results := by
-  revert hd
-  unfold Dom
+/-- **Definitions survive** (full strength). For EVERY history — definitions of every kind (named functions,
+    methods, closures stored in variables, method values bound at top level or inside functions, function values
+    handed to the host, functions of packages imported after cancellations), with or without goroutines and channel
+    operations in their bodies, made at any point; uses through `Eval`, `EvalWithContext` and direct calls by the
+    host; cancelled evaluations of every kind anywhere and in any number —: every use returns exactly what it
+    returns when the cancelled evaluations are left out (`runSpec` ignores them), state carried between calls
+    included. -/
+theorem definitions_survive : C10_full_statement Generated.C10.facts := by
+  intro evs
   rw [runidfacts_tie]
-  intro hd
-  have := full_run evs HSt.init ⟨rfl, rfl⟩ (fun d hd => by cases hd) hd
+  have := full_run evs HSt.init rfl (fun d hd => by cases hd)
   have h2 : (erase (runHist Expected.C10.facts HSt.init evs)).results = (runSpec (erase HSt.init) evs).results := by rw [this]
   simpa [erase, HSt.init] using h2
 
-/-- **Definitions survive, full strength for bodies without channel operations**: every history whose definitions
-    do not block on channels — closures, method values and function values handed to the host included, called from
-    the script and by the host, after any number of cancelled evaluations. This is the statement the round-1 theorem
-    had to restrict to named functions, methods and top-level method values used through `Eval` (F10). -/
-theorem definitions_survive_without_channels (evs : List Ev) (hn : noBlk evs = true) :
-    (runHist Generated.C10.facts HSt.init evs).results = (runSpec HSt.init evs).results :=
-  definitions_survive_partial evs (noBlk_dom _ evs HSt.init hn (fun d hd => by cases hd))
+/-- **… and in the windows**: the same for histories in which a cancelled evaluation is HELD (its `Execute` has not
+    returned when the next event happens: F10-1 (1)), in which `stop()` runs after `Execute` has returned (F10-1 (2)) or
+    without any `Execute` at all: a direct host call made there works like any other. -/
+theorem definitions_survive_extended (xs : List XEv) :
+    (runX Generated.C10.facts xs).results = (runSpec HSt.init (XEv.plain xs)).results := by
+  rw [runidfacts_tie]
+  have h := full_runX xs (HSt.init, false) rfl (fun d hd => by cases hd)
+  have hres : ∀ (h : HSt) (b : Bool), (settle Expected.C10.facts h b).results = h.results := by
+    intro h b; unfold settle; split <;> rfl
+  have h2 : (erase (xs.foldl (stepX Expected.C10.facts) (HSt.init, false)).1).results =
+      (runSpec (erase HSt.init) (XEv.plain xs)).results := by rw [h]
+  simp only [runX, hres]
+  simpa [erase, HSt.init] using h2
 
-/-- non-vacuity: a history with every kind of definition, used through `Eval` and by the host, with four cancelled
+/-- histories without a held evaluation are the histories of `definitions_survive` -/
+theorem runX_of_events (F : RunIdFacts) (evs : List Ev) : runX F (evs.map .ev) = runHist F HSt.init evs := by
+  have key : ∀ (h : HSt), (evs.map XEv.ev).foldl (stepX F) (h, false) = (evs.foldl (stepH F) h, false) := by
+    induction evs with
+    | nil => intro h; rfl
+    | cons e es ih => intro h; simp only [List.map_cons, List.foldl_cons, stepX, settle]; exact ih _
+  simp [runX, key, settle, runHist]
+
+/-- non-vacuity: a history with every kind of definition, used through `Eval`, `EvalWithContext` and by the host —
+    host calls right after cancelled evaluations of channel-using bodies included —, with four cancelled
     evaluations of every kind in between, and a package imported after two of them -/
 def exHist : List Ev :=
   [.define .named 3 1 true, .define .closure 5 2 false, .define .hostWrapper 2 5 true, .define .methodValueInFunc 7 1 false,
-   .use 1 .eval 4, .use 2 .host 1, .cancelled .busyLoop, .use 1 .evalCtx 4, .use 1 .host 4, .use 2 .host 1, .use 3 .eval 1,
-   .cancelled .expiredBefore, .define .imported 2 9 false, .use 4 .eval 3, .cancelled .blockedChan, .cancelled .expiredAfter,
-   .use 1 .host 0, .use 0 .eval 0, .use 3 .eval 1, .use 2 .host 1, .use 4 .evalCtx 1]
-example : Dom exHist = true ∧ (runHist Generated.C10.facts HSt.init exHist).results = (runSpec HSt.init exHist).results ∧
-    (runHist Generated.C10.facts HSt.init exHist).results = [13, 10, 10, 2, 6, 16, 9, 9, 25, 24, 8, 23] ∧
-    (runHist Generated.C10.facts HSt.init exHist).id = 4 := by decide
+   .use 1 .eval 4, .use 2 .host 1, .cancelled .busyLoop, .use 2 .host 1, .use 1 .host 4, .use 0 .host 2, .use 3 .eval 1,
+   .cancelled .expiredBefore, .define .imported 2 9 false, .use 4 .host 3, .cancelled .blockedChan, .cancelled .expiredAfter,
+   .use 2 .host 0, .use 0 .eval 0, .use 3 .host 1, .use 4 .evalCtx 1]
+example : (runHist Generated.C10.facts HSt.init exHist).results = (runSpec HSt.init exHist).results ∧
+    (runHist Generated.C10.facts HSt.init exHist).id = 4 ∧ (runHist Generated.C10.facts HSt.init exHist).results.length = 11 := by decide
 
 /-- F10 repaired (4a41b28), the replay of the finding: a closure and a function value held by the host, used before
     and after a cancelled evaluation, from the script and from the host -/
@@ -150,85 +138,47 @@ theorem closure_and_wrapper_survive_cancel :
     (runHist Generated.C10.facts HSt.init f10Hist).results = [16, 24, 15, 14, 23] ∧
     (runSpec HSt.init f10Hist).results = [16, 24, 15, 14, 23] := by decide
 
-/-! ### what `Dom` excludes (F10-3) -/
+/-! ### F10-3 and F10-1 (repaired by dc95f3e / 2db9fe7): regressions on the extracted facts, witnesses on the facts of round 2 -/
+
+def f103Hist : List Ev :=
+  [.define .hostWrapper 3 1 true, .use 0 .host 4, .cancelled .busyLoop, .use 0 .host 4, .use 0 .host 4, .use 0 .eval 4, .use 0 .host 4]
 
 /-- F10-3: a function held by the host whose body receives its value over a channel, called by the host right after a
-    cancelled evaluation: the receive is "cancelled" at once (the root frame still holds the done channel `stop()`
-    closed): it returns the zero value, twice, though its body has run up to the receive (the call counter moves);
-    after any evaluation it works again. Go returns 14, 15, 16, 17. -/
-theorem host_call_chanop_after_cancel_witness :
-    let evs := [Ev.define .hostWrapper 3 1 true, .use 0 .host 4, .cancelled .busyLoop, .use 0 .host 4, .use 0 .host 4,
-                .use 0 .eval 4, .use 0 .host 4]
-    Dom evs = false ∧
-    (runHist Generated.C10.facts HSt.init evs).results = [18, 17, 0, 0, 14] ∧
-    (runSpec HSt.init evs).results = [18, 17, 16, 15, 14] := by
+    cancelled evaluation. Repaired: the frame races the interpreter's current, open, channel. With the facts of round 2
+    the root frame still held the channel `stop()` had closed: the receive was cut short, twice (the call counter moved). -/
+theorem host_call_chanop_after_cancel :
+    (runHist Generated.C10.facts HSt.init f103Hist).results = [18, 17, 16, 15, 14] ∧
+    (runHist Expected.C10.round2Facts HSt.init f103Hist).results = [18, 17, 0, 0, 14] ∧
+    (runSpec HSt.init f103Hist).results = [18, 17, 16, 15, 14] := by
   decide
 
-/-- the full-strength statement is false for the interpreter as it is (F10-3) -/
-theorem full_statement_false : ¬ C10_full_statement Generated.C10.facts := by
-  intro h
-  have := h [Ev.define .hostWrapper 3 1 true, .cancelled .busyLoop, .use 0 .host 4]
-  revert this
+def f101Hist : List XEv :=
+  [.ev (.define .hostWrapper 3 1 false), .ev (.use 0 .host 4), .hold, .ev (.use 0 .host 4), .ev (.use 0 .host 4),
+   .lateStop, .ev (.use 0 .host 4), .stopOnly, .ev (.use 0 .host 4)]
+
+/-- F10-1: a function value handed to the host is called while the cancelled `Execute` has not returned yet, after a
+    `stop()` that ran when `Execute` had already returned, and after a `stop()` without `Execute`. Repaired: the frame
+    takes the interpreter's id, not the root frame's. With the facts of round 2 the three calls returned zero. -/
+theorem host_call_in_windows :
+    (runX Generated.C10.facts f101Hist).results = [18, 17, 16, 15, 14] ∧
+    (runX Expected.C10.round2Facts f101Hist).results = [0, 0, 15, 0, 14] ∧
+    (runSpec HSt.init (XEv.plain f101Hist)).results = [18, 17, 16, 15, 14] := by
   decide
 
-/-! ### what remains: the window between the return of the `…WithContext` call and the return of its `Execute` -/
-
-/-- An event of a history is a complete evaluation. Between the moment the watcher has run `stop()` (the
-    `…WithContext` call returns the context's error) and the moment the cancelled `Execute` itself returns (its own
-    goroutine: the deferred refresh), the root frame is stale: a direct call by the host made in that window gets a
-    stale frame for EVERY definition, runs nothing and returns zero values. Outside the quantifier of
-    `definitions_survive`; the assumption is listed in props/C10.json and the window is finding F10-1. -/
-theorem host_call_in_window_fails (evs : List Ev) (d : Def)
+/-- in the window of F10-1 (1) every definition is alive for a direct host call -/
+theorem host_call_in_window_alive (evs : List Ev) (d : Def)
     (hd : d ∈ (runHist Generated.C10.facts HSt.init evs).defs) :
-    alive Generated.C10.facts ((runHist Generated.C10.facts HSt.init evs).stoppedNotLeft Generated.C10.facts) d = false := by
+    alive Generated.C10.facts ((runHist Generated.C10.facts HSt.init evs).stoppedNotLeft Generated.C10.facts) d true = true := by
   revert hd
   rw [runidfacts_tie]
   intro hd
   have hf := fvBound_run Expected.C10.facts evs HSt.init (fun d hd => by cases hd)
-  cases hb : d.binding with
-  | callee => simp [alive, useFrameId, hb, guardOk, newId, HSt.stoppedNotLeft, HSt.enter, HSt.stop, HSt.refresh, Expected.C10.facts, Expected.C09.facts]
-  | root => simp [alive, useFrameId, hb, guardOk, newId, HSt.stoppedNotLeft, HSt.enter, HSt.stop, HSt.refresh, Expected.C10.facts, Expected.C09.facts]
-  | fixed s c =>
-    cases s with
-    | call => exact absurd hb (hf d hd c)
-    | _ => simp [alive, useFrameId, hb, guardOk, newId, RunIdFacts.site, HSt.stoppedNotLeft, HSt.enter, HSt.stop, HSt.refresh, Expected.C10.facts, Expected.C09.facts]
+  exact host_alive _ d (hf d hd)
 
-/-- histories without a held evaluation are the histories of `definitions_survive` -/
-theorem runX_of_events (F : RunIdFacts) (evs : List Ev) : runX F (evs.map .ev) = runHist F HSt.init evs := by
-  have key : ∀ (h : HSt), (evs.map XEv.ev).foldl (stepX F) (h, false) = (evs.foldl (stepH F) h, false) := by
-    induction evs with
-    | nil => intro h; rfl
-    | cons e es ih => intro h; simp only [List.map_cons, List.foldl_cons, stepX, settle]; exact ih _
-  simp [runX, key, settle, runHist]
-
-/-- F10-1 (open): a function value handed to the host is called while the cancelled `Execute` has not returned yet:
-    it returns the zero value (and its state does not move); once that `Execute` has returned the same call works.
-    Go returns 14, 15, 16. -/
-theorem host_call_before_execute_returned_witness :
-    let evs := [XEv.ev (.define .hostWrapper 3 1 false), .ev (.use 0 .host 4), .hold, .ev (.use 0 .host 4), .ev (.use 0 .host 4)]
-    (runX Generated.C10.facts evs).results = [15, 0, 14] ∧
-    (runSpec HSt.init (XEv.plain evs)).results = [16, 15, 14] := by
-  decide
-
-/-- F10-1, second form: the context expires at the moment the evaluation finishes — `Execute` has returned when the
-    watcher runs `stop()`; the call returns the context's error and the root frame stays stale until the next
-    evaluation: direct host calls return the zero value until then. Go returns 14, 15, 16, 17. -/
-theorem host_call_after_late_stop_witness :
-    let evs := [XEv.ev (.define .hostWrapper 3 1 false), .ev (.use 0 .host 4), .lateStop, .ev (.use 0 .host 4), .ev (.use 0 .host 4),
-                .ev (.use 0 .eval 4), .ev (.use 0 .host 4)]
-    (runX Generated.C10.facts evs).results = [16, 15, 0, 0, 14] ∧
-    (runSpec HSt.init (XEv.plain evs)).results = [18, 17, 16, 15, 14] := by
-  decide
-
-/-- what a `…WithContext` call that stops the interpreter WITHOUT running an `Execute` would do (the unchanged source
-    always calls `Eval`; seeded/C10-3 skips it under an expired context): the root frame is left stale, every direct
-    host call returns the zero value until the next evaluation. The correspondence harness reports such an event
-    (`expn`) under a class of its own, which is not listed: a VIOLATION. -/
-theorem host_call_after_stop_without_execute_witness :
-    let evs := [XEv.ev (.define .hostWrapper 3 1 false), .ev (.define .closure 2 2 false), .stopOnly, .ev (.use 0 .host 4),
-                .ev (.use 1 .host 4), .ev (.use 1 .eval 4), .ev (.use 0 .host 4)]
-    (runX Generated.C10.facts evs).results = [14, 11, 0, 0] ∧
-    (runSpec HSt.init (XEv.plain evs)).results = [15, 12, 11, 14] := by
+theorem full_statement_false_round2 : ¬ C10_full_statement Expected.C10.round2Facts := by
+  intro h
+  have := h [Ev.define .hostWrapper 3 1 true, .cancelled .busyLoop, .use 0 .host 4]
+  revert this
   decide
 
 /-! ### before the repairs (statements about the old facts) -/
@@ -284,7 +234,7 @@ theorem fixed_binding_dead_for_ever_old (evs : List Ev) (h : HSt) (s : Site) (c 
       have h2 := ih (stepH Expected.C10.oldFacts h e) (by omega)
       simp only [runHist, List.foldl_cons] at h2 ⊢
       omega
-  have hs : Expected.C10.oldFacts.site s = .parent := by cases s <;> rfl
+  have hs : Expected.C10.oldFacts.site s = .parent := by obtain ⟨k, e, l⟩ := s; cases k <;> rfl
   have hg : Expected.C10.oldFacts.guardPlain = true := rfl
   constructor <;> simp [alive, useFrameId, hb, hs, newId, guardOk, hg, HSt.refresh] <;> omega
 
